@@ -23,7 +23,8 @@ InputsWF(e)  == /\ MatWF(e.A) /\ e.A.n = e.n /\ e.A.m = e.n
                 /\ (e.hasx = 1 => VecWF(e.x, e.n))
                 /\ IsInjectiveSeq(e.D) /\ \A r \in DOMAIN e.D : e.D[r] \in 1..e.n
 
-Unchanged(e) == e.ov = 0 => /\ e.A2 = e.A /\ e.b2 = e.b /\ e.x2 = e.x
+\* bit-for-bit: checksums of the operand arrays (A: data, indices, indptr; b; x) before and after the call
+Unchanged(e) == e.ov = 0 => e.ck2 = e.ck
 
 EnforceClauses(e) ==
   IF e.err # "" \/ e.exact = 0 THEN [NoError |-> e.err = "", EntriesIntegral |-> e.exact = 1]
@@ -46,14 +47,16 @@ CondenseClauses(e) ==
   THEN [ResultWellFormed |-> FALSE]
   ELSE [NoError |-> TRUE, EntriesIntegral |-> TRUE, ResultWellFormed |-> TRUE,
         CondensedMatrixIsRestriction |-> CondensedMatrixIsRestriction(e.A, e.AII, IOf(e)),
-        OperandsUnchanged |-> (e.A2 = e.A /\ e.b2 = e.b /\ e.x2 = e.x)]
+        OperandsUnchanged |-> e.ck2 = e.ck]
        @@ (IF e.expand = 1 THEN [KeptIsComplement |-> KeptIsComplement(e.n, e.Ir, e.D),
                                  ReturnedValues |-> e.xr = XOf(e)] ELSE <<>>)
        @@ (IF HasVecB(e) THEN [CondensedRhs |-> CondensedRhs(e.A, BOf(e), XOf(e), e.bI, IOf(e), e.D)] ELSE <<>>)
        @@ (IF e.hasb = 2 THEN [EigenReducedConsistently |-> CondensedMatrixIsRestriction(e.b, e.bI, IOf(e))] ELSE <<>>)
        \* the pipeline solve(*condense(...)) with a stub solver returning the integer vector z
        @@ (IF e.piped = 1 /\ HasVecB(e) /\ KeptIsComplement(e.n, e.Ir, e.D) /\ Len(e.z) = Len(e.Ir)
-           THEN [ExpandedSatisfies |-> ExpandedSatisfies(e.A, BOf(e), XOf(e), e.AII, e.bI, e.Ir, e.D, e.z, e.y)]
+           THEN [ExpandedSatisfies |-> ExpandedSatisfies(e.A, BOf(e), XOf(e), e.AII, e.bI, e.Ir, e.D, e.z, e.y),
+                 \* solve(*condense(..)) leaves the system and the prescribed values bit-for-bit unchanged
+                 PipelineOperandsUnchanged |-> e.ck3 = e.ck]
            ELSE <<>>)
 
 PenalizeClauses(e) ==
@@ -71,6 +74,7 @@ PenalizeClauses(e) ==
 EigenClauses(e) ==
   IF e.err # "" \/ e.exact = 0 THEN [NoError |-> e.err = "", EntriesIntegral |-> e.exact = 1]
   ELSE [NoError |-> TRUE, EntriesIntegral |-> TRUE,
+        OperandsUnchanged |-> e.ck2 = e.ck,
         EigenExpansion |->
           /\ Len(e.Y) = e.n
           /\ \A i \in 1..e.n : Len(e.Y[i]) = e.k
@@ -84,6 +88,7 @@ SolveClauses(e) ==
   IF e.err # "" THEN [NoError |-> FALSE]
   ELSE IF ~(Len(e.y) = e.n /\ \A i \in 1..e.n : FxWF(e.y[i])) THEN [ResultWellFormed |-> FALSE]
   ELSE [NoError |-> TRUE, ResultWellFormed |-> TRUE,
+        OperandsUnchanged |-> e.ck2 = e.ck,
         SolutionOnConstrained |-> \A i \in VSet(e.D) :
             FxNear(e.y[i], FxInt(e.ytrue[i]), IF e.method = "penalize" THEN TolPenal ELSE FxZero),
         SolutionOnKept |-> \A i \in (1..e.n) \ VSet(e.D) :
